@@ -539,8 +539,11 @@ pub fn c14_check<const N: usize>(_o: &Opts, rep: &mut Report) {
             nontrivial += 1;
         }
         outcomes.insert(fnv_of(&(act.name(), format!("{:?}", obs).len(), contents.len())));
-        for p in probs {
-            viols.push((r.to_vec(), *act, p.clone()));
+        // the deque actions only move the layout here; their semantics are C01's business
+        if act.is_io() {
+            for p in probs {
+                viols.push((r.to_vec(), *act, p.clone()));
+            }
         }
         if r.len() >= 2 && !matches!(obs, IoObs::Unit | IoObs::Count(0) | IoObs::Opt(None) | IoObs::Read(0, _, _)) && samples.len() < 10 && !samples.iter().any(|s| s.0 == act.name()) {
             samples.push((act.name().to_string(), format!("N={} state<{}> --{}--> {:?}; contents after {:?}", N, show_recipe(r), act.show(), obs, contents)));
